@@ -196,12 +196,154 @@ def rule_R5b(src):
     return ''.join(out), n
 
 
+def _strip_iter(e):
+    """`&E` | `E.iter()` | `E` -> E (the indexed collection)."""
+    e = e.strip()
+    if e.endswith('.iter()'):
+        e = e[:-len('.iter()')]
+    elif e.endswith('.into_iter()'):
+        e = e[:-len('.into_iter()')]
+    if e.startswith('&'):
+        e = e[1:].strip()
+    return e
+
+
+def _split_zip(expr):
+    """Split `A.zip(B).zip(C)` at top level into [A, B, C]."""
+    parts = []
+    cur = expr.strip()
+    while True:
+        # find last top-level `.zip(` whose closing paren ends the expression
+        if cur.endswith(')'):
+            depth = 0
+            k = len(cur) - 1
+            while k >= 0:
+                if cur[k] in ')]}':
+                    depth += 1
+                elif cur[k] in '([{':
+                    depth -= 1
+                    if depth == 0:
+                        break
+                k -= 1
+            if k >= 4 and cur[k - 4:k] == '.zip':
+                parts.insert(0, cur[k + 1:-1])
+                cur = cur[:k - 4]
+                continue
+        parts.insert(0, cur)
+        return parts
+
+
+def _bind_pattern(pat, coll, idx):
+    """Bindings for one zip component.  `&x` copies the element, `x` borrows it, tuples bind by field."""
+    pat = pat.strip()
+    if pat == '_':
+        return ''
+    byval = False
+    if pat.startswith('&'):
+        byval = True
+        pat = pat[1:].strip()
+    if pat.startswith('('):
+        fields = _split_top(pat[1:-1])
+        out = ''
+        for k, f in enumerate(fields):
+            if f.strip() == '_':
+                continue
+            if f.strip().startswith('('):
+                raise Undecided('R6: nested tuple pattern in element position: ' + pat)
+            fb = f.strip()
+            bv = byval
+            if fb.startswith('&'):
+                bv, fb = True, fb[1:].strip()
+            out += ' let %s = %s(%s)[%s].%d;' % (fb, '' if bv else '&', coll, idx, k)
+        return out
+    return ' let %s = %s(%s)[%s];' % (pat, '' if byval else '&', coll, idx)
+
+
+def _unnest(pat, n):
+    """((p0, p1), p2) with n components -> [p0, p1, p2]."""
+    pat = pat.strip()
+    if n == 1:
+        return [pat]
+    if not (pat.startswith('(') and pat.endswith(')')):
+        raise Undecided('R6: pattern %r does not match a %d-way zip' % (pat, n))
+    parts = _split_top(pat[1:-1])
+    if len(parts) != 2:
+        raise Undecided('R6: pattern %r does not match a %d-way zip' % (pat, n))
+    return _unnest(parts[0], n - 1) + [parts[1]]
+
+
+def rule_R6(src):
+    """for-loops over slices/Vecs (`&v`, `v.iter()`, `.enumerate()`, `.zip(..)`) -> index loops with element lets.
+    Ranges are left alone.  Loop order and the number of iterations (min of the zipped lengths) are unchanged."""
+    n = 0
+    ordinal_base = 0
+    while True:
+        mask = rl.code_mask(src)
+        loops = find_loops(src)
+        changed = False
+        for ordinal, (kw, brace) in enumerate(loops, 1):
+            if not src.startswith('for', kw):
+                continue
+            header = src[kw:brace]
+            m = re.match(r'for\s+(.*?)\s+in\s+(.*)$', header, re.S)
+            if not m:
+                continue
+            pat, expr = m.group(1).strip(), re.sub(r'\s+\.(?=[A-Za-z_])', '.', _flat(m.group(2)))
+            is_rev = re.match(r'^\((.*)\.\.(.*)\)\.rev\(\)$', expr) is not None
+            is_range = re.match(r'^\(?[^()]*\.\.', expr) is not None and '.iter()' not in expr and '.zip(' not in expr
+            if is_range and not is_rev:
+                continue
+            idx = 'vx_i%d' % ordinal
+            enum = False
+            if expr.endswith('.enumerate()'):
+                enum = True
+                expr = expr[:-len('.enumerate()')]
+            mrev = re.match(r'^\((.*)\.\.(.*)\)\.rev\(\)$', expr)
+            if mrev:
+                # for i in (a..b).rev()  ->  descending while loop, same iteration order
+                lo, hi = mrev.group(1).strip(), mrev.group(2).strip()
+                new = 'let mut vx_r%d = %s; while vx_r%d > %s' % (ordinal, hi, ordinal, lo)
+                body_prefix = ' vx_r%d = vx_r%d - 1; let %s = vx_r%d;' % (ordinal, ordinal, pat, ordinal)
+                src = src[:kw] + _pad(new, header) + '{' + body_prefix + src[brace + 1:]
+                n += 1
+                changed = True
+                break
+            comps = _split_zip(expr)
+            first = comps[0]
+            simple_path = re.fullmatch(r'[A-Za-z_][A-Za-z0-9_]*(?:\.[A-Za-z_0-9]+)*', first) is not None
+            if not (first.startswith('&') or first.endswith('.iter()') or simple_path):
+                if len(comps) == 1 and not enum:
+                    continue   # not a recognised collection loop (e.g. a range held in a variable)
+                if not first.endswith('.iter()') and not simple_path:
+                    raise Undecided('R6: unsupported loop source %r' % expr)
+            colls = [_strip_iter(c) for c in comps]
+            if enum:
+                parts = _split_top(pat[1:-1]) if pat.startswith('(') else None
+                if not parts or len(parts) != 2:
+                    raise Undecided('R6: enumerate pattern %r' % pat)
+                idx = parts[0].strip()
+                pat = parts[1]
+            pats = _unnest(pat, len(colls))
+            bound = '(%s).len()' % colls[0]
+            for c in colls[1:]:
+                bound = 'vx_min(%s, (%s).len())' % (bound, c)
+            new = 'for %s in 0..%s' % (idx, bound)
+            binds = ''.join(_bind_pattern(p_, c, idx) for p_, c in zip(pats, colls))
+            src = src[:kw] + _pad(new, header) + '{' + binds + src[brace + 1:]
+            n += 1
+            changed = True
+            break
+        if not changed:
+            return src, n
+
+
 GLOBAL_RULES = [
     ('R1', 'attributes removed (#[inline], #[allow], #[unroll_for_loops], #[must_use], #[rustfmt::skip], #[cfg] of the selected arm)',
      _regex_rule(r'#\[(?:inline|allow|unroll_for_loops|must_use|rustfmt::skip|cfg|cold|doc)[^\]]*\]', '')),
     ('R1b', 'const_assert!(..) removed (evaluated by rustc at compile time)', _regex_rule(r'\bconst_assert!\([^;]*\);', '')),
     ('R5a', 'array pattern `let [a,b,..] = e;` -> indexed lets', rule_R5a),
     ('R5b', 'destructuring assignment `(a, b) = e;` -> temporary + field assignments', rule_R5b),
+    ('R6', 'for-loops over slices (&v, .iter(), .enumerate(), .zip(), (a..b).rev()) -> index loops with element lets', rule_R6),
     ('R2', 'branch_hint() removed (empty asm!, no semantics)', _regex_rule(r'\bbranch_hint\(\)\s*;', '')),
     ('R3', 'plonky2_util::assume(p) renamed to util_assume(p) with `requires p` (assumption becomes an obligation)',
      _regex_rule(r'(?<![A-Za-z0-9_:.])assume\(', 'util_assume(')),
@@ -240,7 +382,7 @@ class FnUnit:
         self.anchors = []    # (where, nth, anchor_text, [lines])
         self.rewrites = []   # (rule, regex, repl)
         self.mutants = []    # (name, regex, repl)
-        self.replay = []     # rust test body lines (directed search against an executable oracle)
+        self.replay = []     # [(pattern on obligation text, rust test body lines)]: directed search against an executable oracle
         self.lineno = lineno
 
 
@@ -289,7 +431,8 @@ def parse_vspec(path):
                 if word == 'sig':
                     sink = fn.sig
                 elif word == 'replay':
-                    sink = fn.replay
+                    sink = []
+                    fn.replay.append((rest, sink))
                 elif word == 'loop':
                     sink = fn.loops.setdefault(int(rest), [])
                 elif re.match(r'(before|after)(\[\d+\])?$', word):
@@ -348,7 +491,7 @@ def repo_src(rel):
 def locate_scope(src, mask, within):
     a, b = 0, len(src)
     if within:
-        for hdr in within.split('>>'):
+        for hdr in within.split(' ;; '):
             try:
                 o, c = rl.find_block(src, hdr.strip(), a, b, mask)
             except rl.LocateError as e:
@@ -377,7 +520,7 @@ def extract_item(kv):
     kind, name = kv['kind'], kv['name']
     if kind in ('const', 'static'):
         rx = re.compile(r'(?:pub(?:\([a-z]+\))?\s+)?' + kind + r'\s+' + re.escape(name) + r'\s*:')
-        hits = [m for m in rl.find_code(src, rx, a, b, mask)]
+        hits = [m for m in rl.find_code(src, rx, a, b, mask) if rl.brace_depth(src, a, m.start(), mask) == 0]
         if len(hits) != 1:
             raise Undecided('lost anchor: %s %s found %d times in %s' % (kind, name, len(hits), kv['file']))
         j = hits[0].end()
@@ -395,7 +538,7 @@ def extract_item(kv):
         line = rl.line_of(src, hits[0].start())
     elif kind in ('struct', 'enum'):
         rx = re.compile(r'(?:pub(?:\([a-z]+\))?\s+)?' + kind + r'\s+' + re.escape(name) + r'\b')
-        hits = [m for m in rl.find_code(src, rx, a, b, mask)]
+        hits = [m for m in rl.find_code(src, rx, a, b, mask) if rl.brace_depth(src, a, m.start(), mask) == 0]
         if len(hits) != 1:
             raise Undecided('lost anchor: %s %s found %d times in %s' % (kind, name, len(hits), kv['file']))
         j = hits[0].end()
@@ -413,6 +556,9 @@ def extract_item(kv):
         raise Undecided('item kind %s unsupported' % kind)
     text = rl.strip_comments(text)
     text = re.sub(r'#\[[^\]]*\]\s*', '', text)   # field/serde attributes
+    text = re.sub(r'\bpub\((?:crate|super)\)', 'pub', text)   # visibility is irrelevant in the single-file crate
+    if kind in ('struct', 'enum') and kv.get('derive'):
+        text = '#[derive(%s)]\n' % kv['derive'] + text
     if kind == 'const' and kv.get('_ensures'):
         m = re.match(r'(?:pub(?:\([a-z]+\))?\s+)?const\s+(\w+)\s*:\s*([^=]+?)\s*=\s*(.*);\s*$', text, re.S)
         if not m:
@@ -493,7 +639,7 @@ def splice(u, ex, probe=False, mutant=None):
     except Exception as e:  # noqa
         raise Undecided('cannot parse signature of %s: %s' % (u.id, e))
     real_n = [re.sub(r'^\(.*\)$', '_tuple', x) for x in real]
-    spec_n = list(spec)
+    spec_n = [re.sub(r'__in$', '', x) for x in spec]
     if len(real_n) != len(spec_n) or any(a != b and not a.startswith('(') and a != '_tuple' for a, b in zip(real_n, spec_n)):
         raise Undecided('signature drift in %s: repo has %s, contract has %s' % (u.id, real, spec))
     # insertion points: list of (char_idx, text, kind)
@@ -539,12 +685,19 @@ def splice(u, ex, probe=False, mutant=None):
             pat = p_[:rl.match_bracket(p_, p_.index('('), [True] * len(p_)) + 1]
             binds += ' let %s = %s;' % (pat.strip(), spec[k])
             fired['R5'] = fired.get('R5', 0) + 1
+    # R5c: `mut x: T` parameter whose contract header declares it immutable -> shadowed by `let mut x = x;`
+    sparts, _ = rl.split_params('\n'.join(u.sig))
+    for k, p_ in enumerate(parts):
+        if re.match(r'\s*mut\s+\w+\s*:', p_) and k < len(sparts) and not re.match(r'\s*mut\s', sparts[k]):
+            nm = re.match(r'\s*mut\s+(\w+)', p_).group(1)
+            binds += ' let mut %s = %s;' % (nm, spec[k])
+            fired['R5c'] = fired.get('R5c', 0) + 1
     if binds:
         inserts.append((0, binds, 'R5'))
     if probe:
         inserts.append((0, ' assert(false); /*VX-PROBE*/', 'probe'))
     # assemble with origin tracking
-    inserts.sort(key=lambda t: t[0])
+    inserts.sort(key=lambda t: (t[0], 0 if t[2] == 'R5' else (2 if t[2] == 'probe' else 1)))
     out_lines, origins = [], []
     cur_line = ex['first_line']
     pos = 0
@@ -600,42 +753,50 @@ def generate(vspec_path, probe=False, mutant=None):
             out.append(l)
             org.append(origins[k] if origins else None)
 
-    for kind, val in chunks:
-        if kind == 'text':
-            emit(val)
-        elif kind == 'meta':
-            meta.append(val)
-        elif kind == 'include':
-            p = os.path.join(VERIF, 'prelude', val + '.rs')
-            emit(['// ---- include %s ----' % val] + open(p).read().split('\n'))
-        elif kind == 'import':
-            ipath, iid = val[0], val[1]
-            other = parse_vspec(os.path.join(VERIF, ipath))
-            found = [v for k, v in other if k == 'fn' and v.id == iid]
-            if len(found) != 1:
-                raise Undecided('import %s %s: unit not found' % (ipath, iid))
-            sig_lines = list(found[0].sig)
-            emit(['// ---- contract imported from %s::%s (proved there; checked in the same run) ----' % (ipath, iid),
-                  '#[verifier::external_body]'] + sig_lines + ['{ unimplemented!() }'])
-            imports.append((ipath, iid))
-        elif kind == 'item':
-            text, line = extract_item(val)
-            ls = text.split('\n')
-            emit(ls, [(val['file'], line + k) for k in range(len(ls))])
-        elif kind == 'fn':
-            u = val
-            ex = extract_fn(u)
-            mu = mutant[1] if (mutant and mutant[0] == u.id) else None
-            lines, origins, info = splice(u, ex, probe=probe, mutant=mu)
-            start = len(out) + 1
-            emit(lines, [(u.file, o) if o else None for o in origins])
-            fn_ranges.append((start, len(out), u.id))
-            info.update(file=u.file, name=u.name, within=u.within, sig_line=ex['sig_line'],
-                        lines=[ex['first_line'], ex['last_line']], raw_sig=re.sub(r'\s+', ' ', ex['sig']).strip(),
-                        raw_body=ex['body'], mutants=[m[0] for m in u.mutants], replay=list(u.replay),
-                        spec_name=(re.search(r'\bfn\s+(\w+)', '\n'.join(u.sig)) or [None, None])[1],
-                        ensures=sum(1 for l in u.sig if l.strip()) and _count_clauses(u.sig))
-            units[u.id] = info
+    def process(chunks_):
+        for kind, val in chunks_:
+            if kind == 'text':
+                emit(val)
+            elif kind == 'meta':
+                meta.append(val)
+            elif kind == 'include':
+                if val in included:
+                    continue
+                included.add(val)
+                p = os.path.join(VERIF, 'prelude', val + '.rs')
+                emit(['// ---- include %s ----' % val])
+                process(parse_vspec(p))
+            elif kind == 'import':
+                ipath, iid = val[0], val[1]
+                other = parse_vspec(os.path.join(VERIF, ipath))
+                found = [v for k, v in other if k == 'fn' and v.id == iid]
+                if len(found) != 1:
+                    raise Undecided('import %s %s: unit not found' % (ipath, iid))
+                sig_lines = list(found[0].sig)
+                emit(['// ---- contract imported from %s::%s (proved there; checked in the same run) ----' % (ipath, iid),
+                      '#[verifier::external_body]'] + sig_lines + ['{ unimplemented!() }'])
+                imports.append((ipath, iid))
+            elif kind == 'item':
+                text, line = extract_item(val)
+                ls = text.split('\n')
+                emit(ls, [(val['file'], line + k) for k in range(len(ls))])
+            elif kind == 'fn':
+                u = val
+                ex = extract_fn(u)
+                mu = mutant[1] if (mutant and mutant[0] == u.id) else None
+                lines, origins, info = splice(u, ex, probe=probe, mutant=mu)
+                start = len(out) + 1
+                emit(lines, [(u.file, o) if o else None for o in origins])
+                fn_ranges.append((start, len(out), u.id))
+                info.update(file=u.file, name=u.name, within=u.within, sig_line=ex['sig_line'],
+                            lines=[ex['first_line'], ex['last_line']], raw_sig=re.sub(r'\s+', ' ', ex['sig']).strip(),
+                            raw_body=ex['body'], mutants=[m[0] for m in u.mutants], replay=list(u.replay),
+                            spec_name=(re.search(r'\bfn\s+(\w+)', '\n'.join(u.sig)) or [None, None])[1],
+                            ensures=_count_clauses(u.sig))
+                units[u.id] = info
+
+    included = set()
+    process(chunks)
     return dict(text='\n'.join(out) + '\n', origins=org, units=units, meta=meta, fn_ranges=fn_ranges, chunks=chunks, imports=imports)
 
 
